@@ -240,6 +240,7 @@ def run(prog: Program, res: Result) -> None:
     if len(rv) == 1 and isinstance(rv[0].value, ast.Call) and dotted(rv[0].value.func) in ("np.average", "np.mean", "numpy.mean", "numpy.average") \
             and len(rv[0].value.args) == 1 and not rv[0].value.keywords:
         a0 = rv[0].value.args[0]
+        a0 = origin(af.node, a0) if isinstance(a0, ast.Name) else a0
         if isinstance(a0, (ast.ListComp, ast.GeneratorExp)) and len(a0.generators) == 1 and not a0.generators[0].ifs \
                 and isinstance(a0.elt, ast.Attribute) and a0.elt.attr == "fitness" and dotted(a0.generators[0].iter) == af.params[0]:
             oka = True
